@@ -22,6 +22,9 @@ Definition by_epoch (l : list snap) : list snap := fold_right insert_epoch [] l.
 Definition cps_agree (model impl : list snap) : bool :=
   Zs_eqb (map s_ts model) (map s_ts impl) && snaps_eqb (by_epoch model) (by_epoch impl).
 
+(* printing aid of the harness: a snapshot list written as a base and (epoch, stamp - base) pairs *)
+Definition rb (b : Z) (l : list (Z * Z)) : list snap := map (fun p => mkSnap (fst p) (b + snd p)) l.
+
 Inductive case :=
 (* getTimeSeriesSnapshots(maxp, interval, snaps); impl = the map sorted by epoch *)
 | CTimeSeries (maxp interval : Z) (snaps : list snap) (impl : list snap)
